@@ -1183,6 +1183,7 @@ class Interp:
         t = self.obj(tslot)
         self.need(self.usable(t) and t is not o)
         getattr(o, rel)   # S7: load the old value so the backref can maintain the old collection
+        self.need(self.usable(o) and self.usable(t))   # that load may have autoflushed
         self._moving_pending(o)
         if type(o).__name__ == "Node":
             self._node_ok(t, o)
@@ -1300,6 +1301,10 @@ class Interp:
             self.rig.orphaned_outside.discard(self.rig.track(x))   # it has a parent again
         elif self.pooled(x):
             self._cascade_clean(x)
+        # the loads above may have autoflushed: a persistent delete-orphan member that was
+        # released earlier is in the 'deleted' state by now (attaching it raises the documented
+        # "has been deleted" error), so the guards are evaluated again on the flushed state
+        self.need(self.workable(o) and self.workable(x))
         self._add(coll, x)
         self._pool_sync()
 
@@ -1332,6 +1337,8 @@ class Interp:
                         continue
                 xs.append(x)
         # members that leave the collection must be usable too (no deleted objects juggling)
+        xs = [x for x in xs if self.workable(x)]   # re-evaluated after the loads above (autoflush)
+        self.need(self.workable(o))
         for x in list(coll):
             if x not in xs:
                 self.need(self.workable(x))
